@@ -35,7 +35,7 @@ RULE = ('one run = one seeded FileStorage history with packs and reopens; '
         'the image has an unfinished tail; distinct = hash of (data file, '
         'index bytes, mode)')
 BUDGET = {'quick': {'runs': 1600, 'wall': 300, 'chunk': 10},
-          'thorough': {'runs': 100000, 'wall': 2400, 'chunk': 20}}
+          'thorough': {'runs': 100000, 'wall': 1800, 'chunk': 20}}
 ASSUMPTIONS = [
     'bit damage inside an index file is outside the property (the format '
     'carries no checksum); only truncation and staleness are injected',
